@@ -8,8 +8,9 @@ What is proved, and from what:
 * `agree_or_not_both_connected` — safety for every pair of histories (so every fault pattern and
   schedule): two Connected endpoints hold the same key block (master secret, randoms, record keys)
   and export the same keying material.  Named hypotheses, both about cryptography only:
-  `FinishedFromPeer` (= VerifyDataBinding: a verify_data value the client accepted was computed by the
-  server for the same master secret and transcript) and `MasterSecretDeterminesKeys` (two derived key
+  `VdInjective` (VerifyDataBinding as a law of `calculate_verify_data`), the network hypothesis
+  `AcceptedFinishedWasSent` (an accepted verify_data value was put on the wire by the peer; its negation
+  is the explicit disjunct "forgery" of `agree_or_forgery`) and `MasterSecretDeterminesKeys` (two derived key
   blocks with the same master secret are the same key block: PRF collision resistance; `expand_keys`
   is a function of (master secret, randoms)).  SRTP-profile agreement is *not* derived here: it needs
   the ServerHello builder, whose bytes are an input (`Loc.shBody`) of this model; the harness checks
@@ -39,88 +40,83 @@ def MasterSecretDeterminesKeys (C : Crypto) : Prop :=
   ∀ p1 q1 a1 b1 e1 t1 p2 q2 a2 b2 e2 t2 k1 k2,
     C.derive p1 q1 a1 b1 e1 t1 = some k1 → C.derive p2 q2 a2 b2 e2 t2 = some k2 → k1.ms = k2.ms → k1 = k2
 
-/-- VerifyDataBinding: every "server finished" verify_data the client accepted (under keys `k`, for
-transcript `tr`) was computed by the server for the same transcript under a key block with the same
-master secret. -/
-def FinishedFromPeer (c s : Ep) : Prop :=
-  ∀ k tr, Ev.finished k tr ∈ c.evs → ∃ k', Ev.sentFinished k' tr ∈ s.evs ∧ k'.ms = k.ms
+/-- **VerifyDataBinding**, as a law of the primitive: `calculate_verify_data` (PRF over the transcript
+hash) is collision free — equal outputs come from equal master secret, label and transcript. -/
+def VdInjective (C : Crypto) : Prop :=
+  ∀ m l t m' l' t', C.vd m l t = C.vd m' l' t' → m = m' ∧ l = l' ∧ t = t'
 
-/-- own Finished messages are computed under the endpoint's (write-once) keys -/
-structure SentInv (v : View) : Prop where
-  sent : ∀ k tr, Ev.sentFinished k tr ∈ v.evs → v.keys = some k
-  conn : v.conn = .connected → v.connKeys = v.keys
+/-- The network carries, it does not invent: every verify_data value the client *accepted* is, byte for
+byte, one the server *put on the wire* in some Finished of this handshake.  (The alternative — somebody
+else produced that value — is the primitive-level event "verify_data forged", which `VdInjective` plus
+secrecy of the master secret rule out; it is not assumed away silently: see
+`agree_or_forgery`.) -/
+def AcceptedFinishedWasSent (c s : Ep) : Prop :=
+  ∀ k tr body, Ev.finished k tr body ∈ c.evs → ∃ k' tr', Ev.sentFinished k' tr' body ∈ s.evs
 
-theorem SentInv.step {C : Crypto} {L : Loc} {a b : View} (h : SentInv a) (hb : BaseInv C L a) (s : VStep C L a b) : SentInv b := by
-  obtain ⟨h1, h2⟩ := h
-  cases s with
-  | conn c hc => exact ⟨h1, fun hh => absurd hh hc⟩
-  | cert leaf hfp hpk => exact ⟨by intro k tr hm; simp at hm; exact h1 k tr hm, h2⟩
-  | ske leaf cr sr body share hc hcert hcr hdec hsig => exact ⟨by intro k tr hm; simp at hm; exact h1 k tr hm, h2⟩
-  | peerPub pk hs => exact ⟨h1, h2⟩
-  | clientRandom cr hs => exact ⟨h1, h2⟩
-  | keys pk cr sr tr ems k hnone hver hpk hcr hd =>
-    refine ⟨?_, ?_⟩
-    · intro k' tr' hm
-      simp at hm
-      have := h1 k' tr' hm
-      rw [hnone] at this
-      cases this
-    · intro hc
-      obtain ⟨k', tr', _, hf⟩ := hb.conn hc
-      have := hb.fins k' tr' hf
-      rw [hnone] at this
-      cases this
-  | connect k tr hk => exact ⟨by intro k' tr' hm; simp at hm; exact h1 k' tr' hm, fun _ => hk.symm⟩
-  | sent k tr hk =>
-    refine ⟨?_, h2⟩
-    intro k' tr' hm
-    simp at hm
-    rcases hm with ⟨rfl, rfl⟩ | hm
-    · exact hk
-    · exact h1 k' tr' hm
-
-theorem SentInv.steps {C : Crypto} {L : Loc} {a b : View} (h : SentInv a) (hb : BaseInv C L a) (s : VSteps C L a b) : SentInv b := by
-  induction s with
-  | refl => exact h
-  | step s0 s1 ih => exact ih.step (hb.steps s0) s1
-
-theorem start_sent (L : Loc) (isClient : Bool) (fp : Option Bytes) : SentInv (view (start L isClient fp).1) := by
-  unfold start
-  split <;> exact ⟨by simp [view], by simp [view]⟩
+theorem after_isClient (C : Crypto) (L : Loc) (isClient : Bool) (fp : Option Bytes) (ops : List Op) :
+    (after C L isClient fp ops).isClient = isClient := by
+  have h := VSteps.isClient_eq (runOps_vstep C L ops (start L isClient fp).1)
+  have h0 : (start L isClient fp).1.isClient = isClient := by unfold start; split <;> rfl
+  exact h.trans h0
 
 /-- **agree_or_not_both_connected.**  `c` is a client after any history `opsC`, `s` a server after any
-history `opsS` (their own random values `Lc`, `Ls`, any expected fingerprints): if both are Connected
-they hold the identical key block — master secret, both randoms, the four record keys/IVs — hence
-`export_keying_material` (a function of master secret and randoms) agrees as well.  Equivalently: a
-Connected endpoint's peer is Connected on the same keys, or not Connected. -/
-theorem agree_or_not_both_connected (C : Crypto) (hM : MasterSecretDeterminesKeys C) (Lc Ls : Loc)
+history `opsS` (their own random values `Lc`, `Ls`, any expected fingerprints).  From the two
+primitive-level hypotheses — `VdInjective C` and `MasterSecretDeterminesKeys C` — and the network
+hypothesis `AcceptedFinishedWasSent c s`: if both are Connected they hold the identical key block
+(master secret, both randoms, the four record keys/IVs), their `export_keying_material` agrees, and the
+transcript the client verified the server's Finished against is the transcript the server computed it
+over.  The master secrets are *derived* equal from the equality of the verify_data bytes (the client's
+check `body = C.vd k_c.ms false tr_c`, proved for every accepted Finished, and the server's
+`body = C.vd k_s.ms label tr_s`, proved for every emitted one), not assumed. -/
+theorem agree_or_not_both_connected (C : Crypto) (hV : VdInjective C) (hM : MasterSecretDeterminesKeys C) (Lc Ls : Loc)
     (fc fs : Option Bytes) (opsC opsS : List Op)
-    (hB : FinishedFromPeer (after C Lc true fc opsC) (after C Ls false fs opsS))
+    (hN : AcceptedFinishedWasSent (after C Lc true fc opsC) (after C Ls false fs opsS))
     (hc : (after C Lc true fc opsC).conn = .connected) (hs : (after C Ls false fs opsS).conn = .connected) :
     (after C Lc true fc opsC).connKeys = (after C Ls false fs opsS).connKeys ∧
-    exporter (after C Lc true fc opsC) = exporter (after C Ls false fs opsS) := by
+    exporter (after C Lc true fc opsC) = exporter (after C Ls false fs opsS) ∧
+    ∃ k tr body, Ev.finished k tr body ∈ (after C Lc true fc opsC).evs ∧
+      Ev.sentFinished k tr body ∈ (after C Ls false fs opsS).evs := by
   have vc := runOps_vstep C Lc opsC (start Lc true fc).1
   have vs := runOps_vstep C Ls opsS (start Ls false fs).1
   have bc := (start_base C Lc true fc).steps vc
   have bs := (start_base C Ls false fs).steps vs
-  have ss := (start_sent Ls false fs).steps (start_base C Ls false fs) vs
-  obtain ⟨kc, trc, hkc, hfc⟩ := bc.conn hc
-  obtain ⟨ks, trs, hks, hfs⟩ := bs.conn hs
-  obtain ⟨k', hsent, hms⟩ := hB kc trc hfc
-  have hk's : (view (after C Ls false fs opsS)).keys = some k' := ss.sent k' trc hsent
-  have hkss : (view (after C Ls false fs opsS)).keys = some ks := bs.fins ks trs hfs
+  obtain ⟨kc, trc, body, hkc, hfc⟩ := bc.conn hc
+  obtain ⟨ks, trs, bodys, hks, hfs⟩ := bs.conn hs
+  obtain ⟨hkeyc, hvdc⟩ := bc.fins kc trc body hfc
+  obtain ⟨k', tr', hsent⟩ := hN kc trc body hfc
+  obtain ⟨hk's, label, hvds⟩ := bs.sents k' tr' body hsent
+  have hkss := (bs.fins ks trs bodys hfs).1
   have hkeq : k' = ks := by rw [hk's] at hkss; exact Option.some.inj hkss
-  obtain ⟨p1, a1, b1, e1, t1, hev1⟩ := bc.keys kc (bc.fins kc trc hfc)
+  have hinj := hV _ _ _ _ _ _ (hvdc.symm.trans hvds)
+  obtain ⟨p1, a1, b1, e1, t1, hev1⟩ := bc.keys kc hkeyc
   obtain ⟨p2, a2, b2, e2, t2, hev2⟩ := bs.keys k' hk's
   have hd1 := (bc.keysEv _ _ _ _ _ _ _ hev1).2
   have hd2 := (bs.keysEv _ _ _ _ _ _ _ hev2).2
-  have heq : kc = k' := hM _ _ _ _ _ _ _ _ _ _ _ _ _ _ hd1 hd2 hms.symm
+  have heq : kc = k' := hM _ _ _ _ _ _ _ _ _ _ _ _ _ _ hd1 hd2 hinj.1
   have h1 : (after C Lc true fc opsC).connKeys = some kc := hkc
   have h2 : (after C Ls false fs opsS).connKeys = some kc := by rw [heq, hkeq]; exact hks
-  refine ⟨by rw [h1, h2], ?_⟩
-  simp [exporter, hc, hs, h1, h2]
+  refine ⟨by rw [h1, h2], by simp [exporter, hc, hs, h1, h2], kc, trc, body, hfc, ?_⟩
+  rw [heq, hinj.2.2]
+  exact hsent
 
-/-- the hypothesis is needed: without `FinishedFromPeer` nothing relates the two histories (an
+/-- The same with the primitive-level events as explicit disjuncts instead of hypotheses: two Connected
+endpoints agree on the key block, **or** a verify_data value was accepted that the peer never sent
+(forgery), **or** `calculate_verify_data` collided, **or** two different key blocks were derived from one
+master secret. -/
+theorem agree_or_forgery (C : Crypto) (Lc Ls : Loc) (fc fs : Option Bytes) (opsC opsS : List Op)
+    (hc : (after C Lc true fc opsC).conn = .connected) (hs : (after C Ls false fs opsS).conn = .connected) :
+    (after C Lc true fc opsC).connKeys = (after C Ls false fs opsS).connKeys ∨
+    ¬ AcceptedFinishedWasSent (after C Lc true fc opsC) (after C Ls false fs opsS) ∨
+    ¬ VdInjective C ∨ ¬ MasterSecretDeterminesKeys C := by
+  by_cases hN : AcceptedFinishedWasSent (after C Lc true fc opsC) (after C Ls false fs opsS)
+  · by_cases hV : VdInjective C
+    · by_cases hM : MasterSecretDeterminesKeys C
+      · exact Or.inl (agree_or_not_both_connected C hV hM Lc Ls fc fs opsC opsS hN hc hs).1
+      · exact Or.inr (Or.inr (Or.inr hM))
+    · exact Or.inr (Or.inr (Or.inl hV))
+  · exact Or.inr (Or.inl hN)
+
+/-- the network hypothesis is needed: without `AcceptedFinishedWasSent` nothing relates the two histories (an
 endpoint pair fed by two unrelated parties connects on unrelated keys) -/
 def mCrypto : Crypto :=
   { cCrypto with chDecode := wCrypto.chDecode, ckeDecode := wCrypto.ckeDecode,
@@ -230,41 +226,6 @@ theorem converge_partial_client_flight (C : Crypto) (L : Loc) (e : Ep) (k : Keys
   simp only [hk, Bool.false_eq_true, if_false, hv, hd]
   refine ⟨_, _, _, rfl, rfl, rfl, ?_, rfl, rfl, rfl, ?_, rfl⟩ <;> simp [clientFinalFlight, emitMsg, hsRecord, ccsRecord]
 
-/-- converge_partial (2): the retransmission tick re-sends the last flight exactly while the endpoint
-is Handshaking (and alive); a Connected, Failed or Closed endpoint stays silent on ticks. -/
-theorem converge_partial_tick (e : Ep) :
-    onTick e = (if e.alive = true ∧ e.conn = .handshaking then (match e.ctx.lastFlight with | some fl => sends fl | none => []) else []) := by
-  unfold onTick
-  by_cases h1 : e.alive = true <;> by_cases h2 : e.conn = .handshaking <;> simp [h1, h2] <;> rfl
-
-/-- converge_partial (3): a server (in any state, in particular Connected) that receives the client's
-Finished again — a duplicate `message_seq`, in a record that authenticated — re-sends its last flight
-(ChangeCipherSpec + Finished once it has completed), and nothing else changes. -/
-theorem converge_partial_server_resends (C : Crypto) (L : Loc) (e : Ep) (m : HsMsg) (fl : List WRec)
-    (hs : e.isClient = false) (ht : m.typ = dtlsHtFinished) (hdup : m.msgSeq < e.ctx.recvSeq)
-    (hfl : e.ctx.lastFlight = some fl) :
-    procMsg C L e true m = ok e (sends fl) := by
-  unfold procMsg
-  simp [hdup, hs, ht, hfl]
-
-/-- … while the same message in a clear-text record (anybody can send that) triggers nothing. -/
-theorem unauthenticated_duplicate_finished_ignored (C : Crypto) (L : Loc) (e : Ep) (m : HsMsg)
-    (hs : e.isClient = false) (ht : m.typ = dtlsHtFinished) (hdup : m.msgSeq < e.ctx.recvSeq) :
-    procMsg C L e false m = ok e := by
-  unfold procMsg
-  simp [hdup, hs, ht]
-
-/-- converge_partial (4a): a fragment that does not continue the reassembly buffer (a duplicate, or
-one that arrives before its predecessor) is ignored: the buffer keeps what it had for that message. -/
-theorem converge_partial_fragment_ignored (C : Crypto) (L : Loc) (e : Ep) (m : HsMsg)
-    (hfrag : m.totalLen ≠ m.body.length) (hsame : e.ctx.incompleteSeq = m.msgSeq) (hoff : m.fragOff ≠ 0)
-    (hnc : m.fragOff ≠ e.ctx.incomplete.length) (hp : e.ctx.postHvr = false) :
-    acceptMsg C L e m = ok e := by
-  unfold acceptMsg
-  have h0 : clearPostHvr e = e := by simp [clearPostHvr, hp]
-  have h1 : resetFrag e.ctx m = e.ctx := by simp [resetFrag, hsame, hoff]
-  simp [h0, h1, hfrag, hnc, withCtx]
-
 /-- converge_partial (4a'): a fragment with offset 0 *restarts* reassembly whatever the buffer held —
 also for the same `message_seq` (a retransmitted flight that the path re-fragmented differently after
 the tail of the first transmission was lost must not be blocked by the stale partial message). -/
@@ -275,55 +236,53 @@ theorem converge_partial_first_fragment_restarts (C : Crypto) (L : Loc) (e : Ep)
   have h0 : clearPostHvr e = e := by simp [clearPostHvr, hp]
   have h1 : resetFrag e.ctx m = { e.ctx with incomplete := [], incompleteSeq := m.msgSeq } := by simp [resetFrag, hoff]
   simp only [h0, h1]
-  rw [if_pos (by omega), if_neg (by simp [hoff])]
-  simp only [appendFrag, List.nil_append]
-  simp [hfrag]
+  rw [if_pos (by omega)]
+  by_cases hb : m.body = []
+  · simp [fragUseful, hoff, hb]
+  · have : 0 < m.body.length := List.length_pos_iff.mpr hb
+    simp [fragUseful, appendFrag, hoff, this, hfrag]
 
-/-- converge_partial (4b): two fragments delivered in order reassemble to the whole message: the
-handler runs on `a ++ b` with the transcript entry of the unfragmented message. -/
-theorem converge_partial_fragments_reassemble (C : Crypto) (L : Loc) (e : Ep) (typ msgSeq : Nat) (a b : Bytes)
-    (ha : a ≠ []) (hb : b ≠ []) (hp : e.ctx.postHvr = false) :
-    let m1 : HsMsg := ⟨typ, a.length + b.length, msgSeq, 0, a⟩
-    let m2 : HsMsg := ⟨typ, a.length + b.length, msgSeq, a.length, b⟩
+/-- converge_partial (4b): two fragments delivered in order reassemble to the whole message, also when
+their ranges **overlap** (`[0, |a|+|b|)` then `[|a|, |a|+|b|+|c|)`; `b = []` is the exact-boundary case):
+the handler runs on `a ++ b ++ c` with the transcript entry of the unfragmented message.  (RFC 6347 §4.2.3
+lets a sender or a re-fragmenting path choose overlapping ranges; before `fix: accept overlapping
+handshake fragments` the second fragment was ignored for ever.) -/
+theorem converge_partial_fragments_reassemble (C : Crypto) (L : Loc) (e : Ep) (typ msgSeq : Nat) (a b c : Bytes)
+    (ha : a ≠ []) (hc : c ≠ []) (hp : e.ctx.postHvr = false) (hseq : e.ctx.recvSeq < 65535) :
+    let total := a.length + b.length + c.length
+    let m1 : HsMsg := ⟨typ, total, msgSeq, 0, a ++ b⟩
+    let m2 : HsMsg := ⟨typ, total, msgSeq, a.length, b ++ c⟩
     let e1 := (acceptMsg C L e m1).ep
     (acceptMsg C L e m1).out = [] ∧ (acceptMsg C L e m1).err = false ∧
-    e1.ctx.incomplete = a ∧ e1.ctx.recvSeq = e.ctx.recvSeq ∧ e1.ctx.transcript = e.ctx.transcript ∧
+    e1.ctx.incomplete = a ++ b ∧ e1.ctx.recvSeq = e.ctx.recvSeq ∧ e1.ctx.transcript = e.ctx.transcript ∧
     acceptMsg C L e1 m2 =
-      handleMsg C L (withCtx e1 (noteMsg (takeBuffer (appendFrag e1.ctx m2)) typ (rawMsg typ msgSeq (a ++ b)))) typ (a ++ b)
-        (rawMsg typ msgSeq (a ++ b)) := by
+      handleMsg C L (withCtx e1 (noteMsg (takeBuffer (appendFrag e1.ctx m2)) typ (rawMsg typ msgSeq (a ++ b ++ c)))) typ (a ++ b ++ c)
+        (rawMsg typ msgSeq (a ++ b ++ c)) := by
+  intro total m1 m2 e1
   have hla : 0 < a.length := List.length_pos_iff.mpr ha
-  have hlb : 0 < b.length := List.length_pos_iff.mpr hb
-  have h0 : clearPostHvr e = e := by simp [clearPostHvr, hp]
-  have hr : (resetFrag e.ctx ⟨typ, a.length + b.length, msgSeq, 0, a⟩).incomplete = [] := by simp [resetFrag]
-  have hrs : (resetFrag e.ctx ⟨typ, a.length + b.length, msgSeq, 0, a⟩).incompleteSeq = msgSeq := by
-    simp [resetFrag]
-  have step1 : acceptMsg C L e ⟨typ, a.length + b.length, msgSeq, 0, a⟩ =
-      ok (withCtx e (appendFrag (resetFrag e.ctx ⟨typ, a.length + b.length, msgSeq, 0, a⟩) ⟨typ, a.length + b.length, msgSeq, 0, a⟩)) := by
-    unfold acceptMsg
-    simp only [h0]
-    rw [if_pos (by simp; omega), if_neg (by simp [hr])]
-    simp only [appendFrag, hr, List.nil_append]
-    rw [if_pos (by simp; omega)]
-  refine ⟨by rw [step1]; rfl, by rw [step1]; rfl, ?_, ?_, ?_, ?_⟩
-  · rw [step1]; simp [ok, withCtx, appendFrag, hr]
-  · rw [step1]; simp [ok, withCtx, appendFrag, resetFrag]
-  · rw [step1]; simp [ok, withCtx, appendFrag, resetFrag]
-  · rw [step1]
-    simp only [ok]
-    unfold acceptMsg
-    have hp1 : clearPostHvr (withCtx e (appendFrag (resetFrag e.ctx ⟨typ, a.length + b.length, msgSeq, 0, a⟩) ⟨typ, a.length + b.length, msgSeq, 0, a⟩))
-        = withCtx e (appendFrag (resetFrag e.ctx ⟨typ, a.length + b.length, msgSeq, 0, a⟩) ⟨typ, a.length + b.length, msgSeq, 0, a⟩) := by
-      simp [clearPostHvr, withCtx, appendFrag, resetFrag, hp]
-    simp only [hp1]
-    have hres : resetFrag (withCtx e (appendFrag (resetFrag e.ctx ⟨typ, a.length + b.length, msgSeq, 0, a⟩) ⟨typ, a.length + b.length, msgSeq, 0, a⟩)).ctx
-        ⟨typ, a.length + b.length, msgSeq, a.length, b⟩
-        = (withCtx e (appendFrag (resetFrag e.ctx ⟨typ, a.length + b.length, msgSeq, 0, a⟩) ⟨typ, a.length + b.length, msgSeq, 0, a⟩)).ctx := by
-      simp [resetFrag, withCtx, appendFrag]
-    rw [if_pos (by simp; omega)]
-    simp only [hres]
-    rw [if_neg (by simp [withCtx, appendFrag, hr])]
-    rw [if_neg (by simp [withCtx, appendFrag, hr])]
-    simp [withCtx, appendFrag, hr, rawMsg, encodeHs]
+  have hlc : 0 < c.length := List.length_pos_iff.mpr hc
+  have s1 := converge_partial_first_fragment_restarts C L e m1 (by simp [m1, total]; omega) rfl hp
+  have he1 : e1 = withCtx e { e.ctx with incomplete := a ++ b, incompleteSeq := msgSeq } := by
+    show (acceptMsg C L e m1).ep = _
+    rw [s1]; rfl
+  refine ⟨by rw [s1]; rfl, by rw [s1]; rfl, by rw [he1]; rfl, by rw [he1]; rfl, by rw [he1]; rfl, ?_⟩
+  have hp1 : clearPostHvr e1 = e1 := by rw [he1]; simp [clearPostHvr, withCtx, hp]
+  have hres : resetFrag e1.ctx m2 = e1.ctx := by
+    have h1 : e1.ctx.incompleteSeq = m2.msgSeq := by rw [he1]; rfl
+    have h2 : m2.fragOff ≠ 0 := by show a.length ≠ 0; omega
+    simp [resetFrag, h1, h2]
+  have hinc : e1.ctx.incomplete = a ++ b := by rw [he1]; rfl
+  have hrs : e1.ctx.recvSeq = e.ctx.recvSeq := by rw [he1]; rfl
+  have happ : (appendFrag e1.ctx m2).incomplete = a ++ b ++ c := by
+    simp [appendFrag, hinc, m2]
+  unfold acceptMsg
+  simp only [hp1, hres]
+  rw [if_pos (by simp [m2, total]; omega)]
+  rw [if_neg (by simp [fragUseful, hinc, m2]; omega)]
+  rw [if_neg (by simp [happ, m2, total]; omega)]
+  rw [if_neg (by simp only [appendFrag, hrs]; omega)]
+  simp only [happ]
+  simp [rawMsg, m2, total, encodeHs, List.append_assoc, Nat.add_assoc]
 
 /-! ### liveness and agreement in the closed system, for every fault schedule
 
@@ -399,10 +358,93 @@ theorem converge_if_delivered_w1 (acts : List Act) :
     · exact absurd hs a
   · exact ⟨a.1.1, a.1.2⟩
 
+open RtcModel.DtlsFlights in
+/-- the two primitive-level hypotheses of `agree_or_not_both_connected` are satisfiable (by the free
+interpretation) … -/
+theorem agreement_hypotheses_satisfiable : VdInjective freeCrypto ∧ MasterSecretDeterminesKeys freeCrypto :=
+  ⟨freeCrypto_vd_injective, freeCrypto_ms_determines_keys⟩
+
+open RtcModel.DtlsFlights in
+/-- … and its network hypothesis holds in the closed system after every fault schedule (both
+directions): what an endpoint accepted as verify_data is something its peer emitted. -/
+theorem closed_system_accepted_was_sent (acts : List Act) :
+    AcceptedFinishedWasSent ((Sys.init W0).run W0 acts).c ((Sys.init W0).run W0 acts).s ∧
+    AcceptedFinishedWasSent ((Sys.init W0).run W0 acts).s ((Sys.init W0).run W0 acts).c := by
+  have hmem := closed_run reach0_closed acts (Sys.init W0) reach0_init
+  have h := reach0_accepted_was_sent
+  rw [List.all_eq_true] at h
+  have hσ := h _ hmem
+  simp only [Bool.and_eq_true, List.all_eq_true] at hσ
+  have conv : ∀ (a b : List Ev), (∀ ev ∈ a, (match ev with
+      | .finished _ _ body => b.any fun ev' => match ev' with | .sentFinished _ _ x => x == body | _ => false
+      | _ => true) = true) → ∀ k tr body, Ev.finished k tr body ∈ a → ∃ k' tr', Ev.sentFinished k' tr' body ∈ b := by
+    intro a b hab k tr body hm
+    have := hab _ hm
+    simp only [List.any_eq_true] at this
+    obtain ⟨ev', hm', he⟩ := this
+    cases ev' with
+    | sentFinished k' tr' x => simp only [beq_iff_eq] at he; subst he; exact ⟨k', tr', hm'⟩
+    | _ => simp at he
+  exact ⟨conv _ _ hσ.1, conv _ _ hσ.2⟩
+
 /-! ### non-vacuity / recovery on a concrete instance -/
 
 /-- the clean run of C02's toy instance connects (already shown there); after it, a repeated client
 Finished makes the server re-send its final flight -/
 example : (after wCrypto wLoc false none wOps).ctx.lastFlight.isSome = true := by decide
 
+/-! ## the handshake deadline (closed system with clocks) -/
+
+open RtcModel.DtlsFlights in
+theorem converge_before_deadline_gen (D : Nat) (faults rest : List TAct) (τ0 : TSys) (h0 : τ0.σ ∈ reach0)
+    (hc : τ0.kc + ticksC faults + 3 < D) (hs : τ0.ks + ticksS faults + 3 < D) :
+    (tFairRound W0 (tFairRound W0 (τ0.run W0 D faults))).kc + 1 < D ∧
+    (tFairRound W0 (tFairRound W0 (τ0.run W0 D faults))).ks + 1 < D ∧
+    bothConnected (tFairRound W0 (tFairRound W0 (τ0.run W0 D faults))).σ = true ∧
+    bothConnected ((tFairRound W0 (tFairRound W0 (τ0.run W0 D faults))).run W0 D rest).σ = true := by
+  obtain ⟨h1, h2, h3⟩ := TSys.run_before_deadline W0 D faults τ0 (by omega) (by omega)
+  generalize τ0.run W0 D faults = τ at h1 h2 h3 ⊢
+  have hmem : τ.σ ∈ reach0 := by rw [h1]; exact closed_run reach0_closed _ _ h0
+  have hgood := reach0_good
+  rw [List.all_eq_true] at hgood
+  have e : (tFairRound W0 (tFairRound W0 τ)).σ = fairRound W0 (fairRound W0 τ.σ) := by simp only [tFairRound]
+  have ekc : (tFairRound W0 (tFairRound W0 τ)).kc = τ.kc + 1 + 1 := by simp only [tFairRound]
+  have eks : (tFairRound W0 (tFairRound W0 τ)).ks = τ.ks + 1 + 1 := by simp only [tFairRound]
+  have hb : bothConnected (tFairRound W0 (tFairRound W0 τ)).σ = true := by rw [e]; exact hgood _ hmem
+  have hmem2 : (tFairRound W0 (tFairRound W0 τ)).σ ∈ reach0 := by
+    rw [e]; exact fairRound_mem reach0_closed (fairRound_mem reach0_closed hmem)
+  refine ⟨?_, ?_, hb, connected_trun D rest _ hmem2 hb⟩
+  · rw [ekc]; omega
+  · rw [eks]; omega
+
+open RtcModel.DtlsFlights in
+/-- **"before the handshake deadline"** (closed system with clocks, free crypto).  Each endpoint has its
+own retransmission timer and its own deadline, `deadlineTicks = 30` periods after its start (from the
+generated constants: 30 s timeout, first tick after 1 s, period 1 s); a deadline action may fire as soon as
+29 ticks of that endpoint were processed (it races with the 30th), and does whatever `onDeadline` does
+(Handshaking → Failed).  Take any fault schedule `faults` — loss, duplication, reordering, delay, ticks, and
+deadline actions wherever the adversary likes — during which each endpoint's timer ticked at most
+`deadlineTicks - 4 = 26` times.  If the network then delivers everything for two periods, both endpoints
+are Connected, no deadline was enabled up to that point, and **whatever happens afterwards** (`rest`: any
+network behaviour, both deadlines firing) they stay Connected — in particular neither ever ends Failed.
+(No deadline action is interleaved inside the two fair rounds: none is enabled there, first two conjuncts.) -/
+theorem converge_before_deadline (faults rest : List TAct)
+    (hc : ticksC faults + 3 < deadlineTicks) (hs : ticksS faults + 3 < deadlineTicks) :
+    let τ2 := tFairRound W0 (tFairRound W0 ((TSys.mk (Sys.init W0) 0 0).run W0 deadlineTicks faults))
+    τ2.kc + 1 < deadlineTicks ∧ τ2.ks + 1 < deadlineTicks ∧
+    bothConnected τ2.σ = true ∧ bothConnected (τ2.run W0 deadlineTicks rest).σ = true :=
+  converge_before_deadline_gen deadlineTicks faults rest (TSys.mk (Sys.init W0) 0 0) reach0_init
+    (by show 0 + _ + 3 < _; omega) (by show 0 + _ + 3 < _; omega)
+
+open RtcModel.DtlsFlights in
+/-- "Otherwise … Failed", the other half: if the network delivers nothing at all, each endpoint keeps
+retransmitting and is Failed — dead — once its deadline fires; the deadline does nothing before the
+endpoint's 29th tick. -/
+theorem silent_network_fails_at_deadline :
+    let ticks := (List.replicate (deadlineTicks - 1) [TAct.net .tickC, TAct.net .tickS]).flatten
+    let early := (TSys.mk (Sys.init W0) 0 0).run W0 deadlineTicks (ticks.take 56 ++ [.deadlineC, .deadlineS])
+    let τ := (TSys.mk (Sys.init W0) 0 0).run W0 deadlineTicks (ticks ++ [.deadlineC, .deadlineS])
+    (early.σ.c.conn = .handshaking ∧ early.σ.s.conn = .handshaking) ∧
+    (τ.σ.c.conn = .failed ∧ τ.σ.c.alive = false ∧ τ.σ.s.conn = .failed ∧ τ.σ.s.alive = false) := by
+  decide +kernel
 end RtcModel.Theorems.C11
